@@ -4,7 +4,7 @@ S->C: Tokens.tla (TLC) enumerates all token sequences <= 3 (quick) / 4 (thorough
 syntax and, by -simulate, random sequences up to 8 tokens; miasmX assembles; C->S: T_C10A.tla has no action for the
 outcomes internal / timeout / non-list, so a call with such an outcome is rejected by TLC.
 Owned by the assembler-side builder; vf/c10.py calls run_asm_part(tier, chk)."""
-import os, re, json, random, collections
+import random, os, re, json, random, collections
 from . import core, asmlib
 
 CODE = {'list': 0, 'reject': 1, 'internal': 2, 'timeout': 3, 'other': 4}
@@ -91,8 +91,22 @@ def run_asm_part(tier, chk):
     negative_control(chk)
     stats = collections.Counter()
     total = fresh_cache_probe(chk)
+    # the well-formed lines of the assembler checks (AsmSpace.tla: every canonical line, its AT&T transliteration and its
+    # constant-arithmetic spelling) must not crash either, whether they are accepted or rejected
+    from . import asm_text
+    rnd = random.Random(chk.seed)
+    canon = {'intel': [], 'att': []}
+    for l in asmlib.canon_lines(chk):
+        if quick and rnd.random() > 0.25:
+            continue
+        canon['intel'].append(asm_text.render(l['intel']))
+        if 'att' in l:
+            canon['att'].append(asm_text.render(l['att']))
+        if 'intel_split' in l:
+            canon['intel'].append(asm_text.render(l['intel_split']))
     for syn in ('intel', 'att'):
         texts, nex = gen(syn, 3 if quick else 4, 150 if quick else 1500, chk.seed, chk)
+        texts = list(texts) + sorted(set(canon[syn]))
         items = [(syn, t) for t in texts]
         outs = asmlib.run_asm(items)
         total += len(items)
